@@ -308,9 +308,6 @@ func buildEthTree(ctx *ev.Ctx, c c27Case) (hs []*hdr, nodes []*mNode) {
 			// number = parent+1 (mod 2^64) but not parent+1: must be refused
 			h.Number = bigHex(new(big.Int).Add(h.number(), wrap))
 			mn.reject = true
-			if ev.IsKnown("C27", keyEthNumWrap) {
-				mn.exclude = true
-			}
 		}
 		seal(ctx, h)
 		mn.hash, mn.own, mn.height, mn.raw = refHash(h), h.diff(), h.number(), headerJSON(h)
@@ -700,6 +697,31 @@ func checkBtcPow(ctx *ev.Ctx, w *world.World, rootHash [32]byte) {
 	}
 }
 
+// restoreStore rewrites the block-layer overlay so that the visible state equals `before`.
+func restoreStore(w *world.World, before [][2][]byte) {
+	w.Cache.Reset()
+	bm := map[string][]byte{}
+	for _, kv := range before {
+		bm[string(kv[0])] = kv[1]
+	}
+	for _, kv := range w.Dump() {
+		old, ok := bm[string(kv[0])]
+		switch {
+		case !ok:
+			w.Overlay.Delete(kv[0])
+		case string(old) != string(kv[1]):
+			w.Overlay.Put(kv[0], old)
+		}
+		delete(bm, string(kv[0]))
+	}
+	for k, v := range bm {
+		w.Overlay.Put([]byte(k), v)
+	}
+	if d := world.DiffDump(before, w.Dump()); d != "" {
+		panic("harness: could not restore the store: " + d)
+	}
+}
+
 // ---- runner ----------------------------------------------------------------------------------
 
 func runC27(ctx *ev.Ctx, c c27Case) {
@@ -780,7 +802,11 @@ func runC27(ctx *ev.Ctx, c c27Case) {
 				if wrapNode >= 0 && strings.Contains(why, "invalid header") {
 					ctx.Known(keyEthNumWrap, "%s: header with number = parent+1+2^64 (%v on parent %v) was accepted: the height test compares Number.Uint64()",
 						what, nodes[wrapNode].height, nodes[nodes[wrapNode].parent].height)
-					return
+					// known finding: put the store back to the state before the call (what a refusal
+					// would have left) so that the search continues behind it
+					restoreStore(w, before)
+					ctx.Label("eth:number-wrap-accepted(known finding, call undone)")
+					continue
 				}
 				ctx.Failf("%s: call succeeded although %s", what, why)
 			}
